@@ -48,6 +48,10 @@ var specialCoords = []kit.V3{
 	{1e300, 1, 0}, {1e300, 2, 0}, {1e300, 3, 0}, // collide in 3D and 2D (Y absorbed)
 	{1 << 60, 0, 1}, {1 << 60, 0, 1.5}, // collide in 3D (Z absorbed)
 	{-1e300, 1, 0}, {-1e300, 2, 0},
+	// equal keys that differ in the sign of their zeros, next to a component so small that its share of any
+	// weighted sum underflows (to either zero)
+	{negZero, -5e-324, negZero}, {0, -5e-324, 0}, {negZero, 5e-324, 0}, {0, 5e-324, negZero}, {0, -1e-323, negZero}, {negZero, -1e-323, 0},
+	{-5e-324, negZero, 0}, {-5e-324, 0, negZero}, {0, negZero, -5e-324}, {negZero, 0, -5e-324},
 }
 
 func poolGen(t *rapid.T) []kit.V3 {
@@ -105,7 +109,8 @@ func runMap[K comparable, V any](c mapCase, o *kit.Obs, m fastMap[K, V], mk func
 		case "store":
 			v := []int{op.X}
 			if !number {
-				v = []int{op.X, op.X + 1}[:1+op.X&1]
+				// lists of two, one and no items: a key stored with an empty list is still a key, as in map[K][]V
+				v = []int{op.X, op.X + 1}[:((op.X%3)+4)%3]
 			}
 			m.Store(k, toV(v))
 			model[k] = append([]int(nil), v...)
